@@ -33,7 +33,9 @@ def gen_case(rng, kind=None, rules=False):
             if "delay" in rx: rx["delay"]["reactants"] = []
     if any(rx.get("delay", {}).get("reactants") for rx in spec["reactions"]): safe = True
     n = rng.randint(3, 12); dt = rng.choice([0.25, 0.5, 1.0, 2.0])
-    case = {"spec": spec, "kind": kind, "safe": safe, "times": [i * dt for i in range(n)], "seed": rng.randint(1, 2**31)}
+    # a quarter of the grids start AFTER the initial time 0 (events before the first requested time still happen -- S2_C05)
+    off = rng.choice([0.5 * dt, dt, 3 * dt]) if rng.random() < 0.25 else 0.0
+    case = {"spec": spec, "kind": kind, "safe": safe, "times": [off + i * dt for i in range(n)], "seed": rng.randint(1, 2**31)}
     if kind == "vssa": case["volume"] = {"type": "base", "V0": rng.choice([0.25, 0.5, 1.0, 2.0, 4.0])}
     return case
 
@@ -121,5 +123,6 @@ def shrink(case, fails):
 def stats(cases):
     from collections import Counter
     return {"simulators": dict(Counter(c["kind"] + ("+safe" if c["safe"] else "") for c in cases)),
-            "kinds": dict(Counter(rx["type"] for c in cases for rx in c["spec"]["reactions"]))}
+            "kinds": dict(Counter(rx["type"] for c in cases for rx in c["spec"]["reactions"])),
+            "grids_starting_after_t0": sum(1 for c in cases if c["times"][0] > 0)}
 def key(case): return json.dumps([case["spec"], case["kind"], case["safe"], case["times"], case["seed"]], sort_keys=True)
